@@ -86,6 +86,7 @@ def FlipPolarity(F):
 
     def subst(lit):
         return [[-lit]]
+    newF.update_variable_number(F.number_of_variables())
     newF.add_clauses_from(apply_substitution(F, subst))
     return newF
 
